@@ -397,6 +397,7 @@ inline rc::Gen<HCfg> cfg_gen() {
         h.ssid = *bytes(0, 40);
         h.icon = *bytes(0, 1400);
         h.friendly = *bytes(0, 80);
+        if (*chance(6) && h.friendly.size() >= 4) { static const std::vector<Bytes> pre = {{0xFF, 0xFE}, {0xFE, 0xFF}, {0xEF, 0xBB, 0xBF}, {0x00, 0x00}}; const Bytes &p = pre[(size_t)*range<int>(0, 3)]; std::copy(p.begin(), p.end(), h.friendly.begin()); }   // starts like a byte-order mark / a NUL unit
         Bytes hw = *bytes(0, *gx::pick({32, 32, 32, 36, 40}));     // UCS-2LE units without NUL unit; platforms may hold more than the 32 units the core asks for (a 36-character UUID)
         h.hwid.clear();
         for (auto b : hw) {   // never U+0000; includes units whose low byte is zero (U+0100 ...) next to ASCII units
